@@ -22,7 +22,7 @@ META = {
 
 
 def all_cases(ctx):
-    return F.f_cyc() + F.f_rand_cyc(ctx.seed, 50 if ctx.quick else 500)
+    return F.f_cyc() + F.renamed(F.f_cyc(), "acyc") + F.f_rand_cyc(ctx.seed, 50 if ctx.quick else 500)
 
 
 def run(ctx):
@@ -36,7 +36,12 @@ def run(ctx):
             continue
         ctx.sample({"case": cid, "circuit": spec})
         det = {"case": cid, "circuit": spec}
-        res, e = call(tx.acyclic_unroll, build(spec))
+        carg = build(spec)
+        res, e = call(tx.acyclic_unroll, carg)
+        ctx.unchanged("acyclic_unroll", carg, spec)
+        if e is not None and isinstance(e, ValueError) and ("already in circuit" in str(e) or "overlaps" in str(e)) and any(n.startswith("aux_in_") or (n[:1] == "c" and n[1:2].isdigit() and "_" in n) for n in A.types):
+            ctx.rejected("documented rejection: a node is named like the nodes acyclic_unroll generates (aux_in_*, c<i>_*)")
+            continue
         if e is not None:
             ctx.side("acyclic_unroll-raises", False, f"acyclic_unroll:raises:{type(e).__name__}", f"acyclic_unroll raised {e!r}", det)
             continue
